@@ -160,7 +160,7 @@ def run(ctx) -> None:
                 if k not in ("message", "tag", "path"):
                     continue      # {remote} is discovered from the repository, not user supplied
                 v2 = shapes.resolve_alias(fn, v)
-                plain = isinstance(v2, ast.Name) and v2.id in fn.all_params
+                plain = isinstance(v2, ast.Name) and v2.id in fn.all_params and not shapes.local_defs(fn, v2.id)
                 tmpname = isinstance(v2, ast.Attribute) and v2.attr == "name" and k == "path"
                 ctx.check("R3", plain or tmpname,
                           f"{fn.fq} L{call.lineno}: {k}= is the unmodified parameter `{unparse(v)}`",
